@@ -173,11 +173,13 @@ LEAVES = [
     T("Literal[None]", _choice(["None"]), feat="Literal1"),
     T("TVB", _choice(["1"]), feat="TypeVar"),
     T("TVC", _choice(["1", '"s"']), feat="TypeVar"),
-    T("TV", _choice(["1", "None"]), feat="TypeVar"),
     T("tuple", _choice(["()", "(1, 'a')"]), feat="bare-tuple"),
     T("Tuple[()]", _choice(["()"]), feat="empty-tuple"),
 ]
 LEAF_BY_SRC = {t.src: t for t in LEAVES}
+# the unconstrained TypeVar is used only as a field type of Generic[TV] classes (in a non-generic class it would be bound by
+# whichever generic dataclass happens to contain it: see known finding generic-typevar-leak)
+LEAF_BY_SRC["TV"] = T("TV", _choice(["1", "None"]), feat="TypeVar")
 KEY_LEAVES = ["str", "int", "E3", "E2", "datetime.date", "uuid.UUID", "bool", "float", "E6"]
 
 ANNOTS = {
